@@ -20,7 +20,10 @@ pub mod raw;
 pub use origin::WithOrigin;
 pub use raw::WithRawSiginfo;
 
+#[cfg(not(sighook_verif))]
 use std::sync::atomic::{AtomicBool, Ordering};
+#[cfg(sighook_verif)]
+use libc::vshim::atomic::{AtomicBool, Ordering};
 
 use libc::{c_int, siginfo_t};
 
